@@ -84,10 +84,12 @@ def sweep_cases(ctx):
     rng = esrv.rng(ctx.seed, "C09/sweep")
     cases = []
     for cls in CLASSES:
-        for n in (1, 2, 3, 4):
+        for n in (1, 2, 3, 4) if ctx.quick else (1, 2, 3, 4, 5):
             combos = list(itertools.product(SYMS, repeat=n))
             if n == 4 and ctx.quick:
                 combos = rng.sample(combos, 250)
+            if n == 5:
+                combos = rng.sample(combos, 4000)
             for syms in combos:
                 x, y, s = data(rng, n, cls)
                 cases.append(mkcase(cls, x, y, s, "vec", [entry(sy, rng) for sy in syms], "place:" + ",".join(syms)))
@@ -286,6 +288,7 @@ def correspondence(ctx):
                 y = [dy(rng, 0, 160) for _ in range(n)]
             ccases.append(mkcase(cls, x, y, s, "vec", [entry("fin", rng) for _ in range(n)], "ctor"))
     cans = run_impl(ctx, "ctor", ccases)
+    ctx.ctor = list(zip(ccases, cans))
     for c, a in zip(ccases, cans):
         rep.case(key=(c["cls"], "ctor", len(c["x"])), sample={"input": show(c), "returned": a})
         flags = [k for k in ("xvar_ok", "yvar_ok", "yerr_ok", "inv_cov_ok") if k in a and not a[k]]
@@ -303,7 +306,7 @@ def correspondence(ctx):
                 "length 1-3 (%s of length 4), scalar predictions, a raising model function, wrong-length / length-1 / empty shapes, and "
                 "random special values (0, negative, inf, NaN) in sigma and y; dyadic-rational data so float inputs are exact; the Q instance of the "
                 "generated terms is evaluated by vm_compute and compared with the real method (class of the result exactly, finite values to 1e-12); "
-                "plus objects built by the real constructors from data files" % ("a seeded sample of 250" if ctx.quick else "all 2401"))
+                "plus objects built by the real constructors from data files" % ("a seeded sample of 250" if ctx.quick else "all 2401, and 4000 of length 5"))
     rep.exhaustive = not ctx.quick
 
 
@@ -399,6 +402,10 @@ def search(ctx):
             return lim is None or (v[1] >= 0 if lim == 0 else v[1] > 0)
         cases.append(c); answers.append(a)
         kinds.append("finite" if all(good(v) for v in vals) else "special")
+    # objects built by the real constructors from data files (finite, in-domain predictions)
+    for c, a in getattr(ctx, "ctor", []):
+        if "r" in a:
+            cases.append(c); answers.append(a); kinds.append("finite")
     nviol = 0
     for c, a, kind in zip(cases, answers, kinds):
         r = a["r"]
